@@ -5,6 +5,7 @@ from .common import (P, F, LEN, SIZE, rule_index_kinds, rule_elementwise, effect
                      forwards_to, callee_path, callee_generic, call_args, is_call_like, adt_of, OP_OF_TRAIT, single_expr_body,
                      ctor_summary, eq_classes, in_macro)
 from .guards import facts
+from .common import swap_events, early_exits
 from .guards import for_range as raw_for_range
 from .common import for_range_total as for_range
 
@@ -404,48 +405,50 @@ def rule_editing(rep, pdb):
     if fn is not None:
         ctx = Ctx.for_fn(pdb, fn)
         body = fn["body"]
-        top = strip(body.get("expr")) if body.get("expr") else None
-        ok, det = top is not None and top.get("k") == "If", ""
-        if ok:
-            cond = ctx.term(top["cond"])
-            sq = cond in (("op", "==", ROWS, COLS), ("op", "==", COLS, ROWS))
-            sq_branch, ns_branch = top["then"], top.get("else")
-            neg = cond in (("op", "!=", ROWS, COLS), ("op", "!=", COLS, ROWS))
-            if neg:
-                sq, sq_branch, ns_branch = True, top.get("else"), top["then"]
-            ok = sq and ns_branch is not None
-            if ok:
-                # non-square branch
-                pushes = [e for e in effects(pdb, ctx, ns_branch) if e.kind == "push"]
-                okn = len(pushes) == 1 and len(pushes[0].loops) == 2
-                if okn:
-                    e = pushes[0]
-                    src = elem_ref(pdb, ctx, _first_index(e.vnode))
-                    o, i = for_range(ctx, e.loops[0]), for_range(ctx, e.loops[1])
-                    okn = src is not None and len(src) == 3 and src[0] == P(0) and o is not None and i is not None and \
-                        src[2] == o[0] and src[1] == i[0] and o[1] == num(0) and o[2] == COLS and i[1] == num(0) and i[2] == ROWS
-                    assigns = [x for x in effects(pdb, ctx, ns_branch) if x.kind == "assign" and x.target == F(P(0), "mat") and x.value == e.target]
-                    swaps = [n for n in walk(ns_branch) if n.get("k") == "Call" and callee_path(n) in ("std::mem::swap", "core::mem::swap")
-                             and {ctx.term(a) for a in call_args(n)} == {ROWS, COLS}]
-                    okn = okn and len(assigns) == 1 and len(swaps) == 1
-                    det = "non-square: col-outer push=%s mat replaced=%d dims swapped=%d" % (okn, len(assigns), len(swaps))
-                # square branch: a swap of (i,j) with (j,i), j from i+1
-                refs = []
-                for n in walk(sq_branch):
-                    if n.get("k") == "Index" and not in_macro(n):
-                        r = elem_ref(pdb, ctx, n)
-                        if r is not None and len(r) == 3:
-                            refs.append((r[1], r[2]))
-                loops = [n for n in walk(sq_branch) if n.get("k") == "For"]
-                oks = len(loops) == 2
+
+        def region(node):
+            """'sq' / 'ns' / None: which of rows == cols, rows != cols is known where node executes (if/else or early return)"""
+            fs = facts(ctx, node)
+            if any(f[0] == "cmp" and f[1] == "==" and {f[2], f[3]} == {ROWS, COLS} for f in fs):
+                return "sq"
+            if any(f[0] == "cmp" and f[1] == "!=" and {f[2], f[3]} == {ROWS, COLS} for f in fs):
+                return "ns"
+            return None
+        effs = effects(pdb, ctx)
+        # non-square part
+        pushes = [e for e in effs if e.kind == "push"]
+        okn = len(pushes) == 1 and len(pushes[0].loops) == 2 and region(pushes[0].node) == "ns"
+        det = ""
+        if okn:
+            e = pushes[0]
+            src = elem_ref(pdb, ctx, _first_index(e.vnode))
+            o, i = for_range(ctx, e.loops[0]), for_range(ctx, e.loops[1])
+            okn = src is not None and len(src) == 3 and src[0] == P(0) and o is not None and i is not None and \
+                src[2] == o[0] and src[1] == i[0] and o[1] == num(0) and o[2] == COLS and i[1] == num(0) and i[2] == ROWS and not o[4] and not i[4]
+            assigns = [x for x in effs if x.kind == "assign" and x.target == F(P(0), "mat") and x.value == e.target and region(x.node) == "ns"]
+            dimsw = [ev for ev in swap_events(pdb, ctx, body) if {ev[0], ev[1]} == {("place", ROWS), ("place", COLS)} and region(ev[2]) == "ns"]
+            okn = okn and len(assigns) == 1 and len(dimsw) == 1 and _pos(assigns[0].node) > _pos(e.loops[0])
+            det = "non-square: col-outer push=%s mat replaced=%d dims swapped=%d" % (okn, len(assigns), len(dimsw))
+        # square part: every exchange is (i,j) <-> (j,i) over the strict upper triangle, nothing else is written
+        evs = [ev for ev in swap_events(pdb, ctx, body, eqs={ROWS: COLS}) if ev[0][0] == "elem2"]
+        oks = len(evs) == 1 and region(evs[0][2]) == "sq"
+        if oks:
+            ev = evs[0]
+            loops = [a_ for a_ in _anc(ev[2]) if a_.get("k") == "For"]
+            loops.reverse()
+            oks = len(loops) == 2
+            if oks:
+                o, i = for_range(ctx, loops[0]), for_range(ctx, loops[1])
+                dims = (ROWS, COLS)
+                oks = o is not None and i is not None and o[1] == num(0) and o[2] in dims and i[1] == lin_add(o[0], num(1)) and i[2] in dims and not o[3] and not i[3]
                 if oks:
-                    o, i = for_range(ctx, loops[0]), for_range(ctx, loops[1])
-                    oks = o is not None and i is not None and o[1] == num(0) and o[2] in (ROWS, COLS) and i[1] == lin_add(o[0], num(1)) and i[2] in (ROWS, COLS)
-                    if oks:
-                        pair = {(o[0], i[0]), (i[0], o[0])}
-                        oks = set(refs) == pair and len(refs) == 3
-                det += "; square: strict upper triangle swap=%s" % oks
-                ok = okn and oks
+                    A, B = ev[0], ev[1]
+                    oks = A[1] == P(0) and B[1] == P(0) and {(A[2], A[3]), (B[2], B[3])} == {(o[0], i[0]), (i[0], o[0])}
+            other_sets = [e for e in effs if e.kind in ("set", "upd") and region(e.node) == "sq" and not any(a_ is evs[0][2] or e.node is a_ for a_ in _anc(evs[0][2]))
+                          and not _part_of_swap(e, evs[0][2])]
+            oks = oks and not other_sets
+        det += "; square: strict upper triangle exchange (i,j)<->(j,i)=%s" % oks
+        ok = okn and oks
         rep.add("edit/transpose_in_place", rule, ok, fn["body"], det, where=loc(fn["body"]))
     # transpose = clone + transpose_in_place
     rule = "transpose returns a clone of self transposed in place"
@@ -480,20 +483,24 @@ def rule_editing(rep, pdb):
             ok = ok and tgt is not None and src is not None and len(tgt) == 3 and len(src) == 3 and tgt[0] == P(0) and (tgt[1], tgt[2]) == (src[1], src[2])
             if ok:
                 i, j = tgt[1], tgt[2]
-                ok = ranges.get(i, (None, None))[:2] == (num(0), P(1)) and ranges.get(j, (None, None))[:2] == (num(0), P(2)) and i != j
                 old = src[0]
-                ob = ctx.binds.get(old[1]) if old[0] == "var" else None
-                # `temp` is an immutable clone of self taken before the replacement: its term is P(0) (clone transparent)
-                is_old = old == P(0) and _pos(_first_index(e.vnode)) > _pos(repl[0].node)
+                # the set of copied (i, j): exactly i < r, j < c, i < old.rows, j < old.cols, whether through loop bounds
+                # (incl. min(..)) or an if inside the loops; lower bounds 0, ascending or not does not matter
+                from .guards import norm_cmp, term_vars
+                rng = [raw_for_range(ctx, l) for l in e.loops]
+                lows = all(r is not None and r[1] == num(0) for r in rng) and {r[0] for r in rng if r} == {i, j} and i != j
                 fs = facts(ctx, e.node)
-                from .guards import norm_cmp
-                need = {norm_cmp("<", i, F(old, "rows")), norm_cmp("<", j, F(old, "cols"))}
-                have = {f for f in fs if f[0] == "cmp"}
-                ok = ok and need <= have
-                det = "copy guarded by i<old.rows && j<old.cols: %s" % (need <= have)
+                mine = {f for f in fs if f[0] == "cmp" and (term_vars(f[2]) | term_vars(f[3])) & {i[1], j[1]}} if i[0] == "var" and j[0] == "var" else set()
+                need = {norm_cmp("<", i, P(1)), norm_cmp("<", j, P(2)), norm_cmp("<", i, F(old, "rows")), norm_cmp("<", j, F(old, "cols"))}
+                lower = {norm_cmp("<=", num(0), i), norm_cmp("<=", num(0), j)}
+                exact = need <= mine and mine <= (need | lower)
+                total = all(not early_exits(l) for l in e.loops)
+                ok = ok and lows and exact and total
+                det = "copied set is exactly {i<r, j<c, i<old.rows, j<old.cols}: %s (facts on i,j: %d)" % (exact, len(mine))
+                is_old = True
                 # the clone must be taken before `*self = ...`
-                lets = [b for b in ctx.binds.values() if b.kind == "let" and b.init is not None and ctx.term(b.init) == P(0) and b.node is not None]
-                before = any(_pos(b.node) < _pos(repl[0].node) for b in lets)
+                ob = ctx.binds.get(old[1]) if old[0] == "var" else None
+                before = ob is not None and ob.kind == "let" and ob.init is not None and ctx.term(ob.init) == P(0) and _pos(ob.node) < _pos(repl[0].node)
                 ok = ok and before
                 det += "; old contents cloned before replacement: %s" % before
         rep.add("shape/resize", rule, ok, fn["body"], det, where=loc(fn["body"]))
@@ -574,3 +581,13 @@ def run(rep, pdb, tier):
     rep.assumptions += ["decides shape, polarity, index discipline, range and delegation of each operation for all shapes at once; "
                         "equality with a reference model for all values and histories is not decided statically"]
     return {"index_sites": n_sites, "elementwise_impls": n_el, "delegating_impls": n_del}
+
+
+def _part_of_swap(e, swapnode):
+    """the write-back `A = temp` of the temp-swap idiom sits in the same block as the mem::swap call"""
+    blk = None
+    for a_ in _anc(swapnode):
+        if a_.get("k") == "Block":
+            blk = a_
+            break
+    return blk is not None and any(a_ is blk for a_ in _anc(e.node))
